@@ -23,6 +23,10 @@ CHECKS = {
          "bounded-exhaustive input enumeration (token sequences, untyped expression trees, type expressions, deviation-bounded mutations of valid seeds, module trees) through the public compile API with a totality oracle; stack-overflow candidates are probed in a forked copy of the worker",
          "All token sequences of length <= 2 (thorough 3) over the 75-token alphabet in 3 wrappers, all untyped expressions over every ast::Expr form (49 atoms x 140 one-hole templates, 6 positions), all type expressions to depth 2, every single-character deletion/insertion/truncation and single-token replacement of 36 seeds (thorough: deviation 2 on micro seeds), all texts over a multi-byte alphabet in 53 position kinds, and module trees of <= 3 files in memory and on disk: compile returns a package or a report, never a panic/abort/stack overflow/hang; the report renders with and without colour and every cited location lies in its file on character boundaries.",
          "Inputs more than two deviations from a seed or longer than the token bound are not enumerated; nesting depth bounded."),
+ "C07": ("4/C07",
+         "exhaustive single-edit enumeration: every applicable type-breaking edit from a closed list at every position of every well-typed seed program, compiled through the public API; a mutant that compiles is the violation",
+         "2 670 well-typed seeds (all depth-1 numeric / comparison / logic expressions for the 10 numeric types, the 93 C01 templates, all control-flow skeleton bodies of size <= 2, 48 hand-written seeds over records, enums, Option/?, match, lists, loops, filtermaps, constants, imports, f-strings, methods, context) x EVERY applicable edit of the closed list e1-e10 (concretely typed expression of another type in every operand/argument/field/condition/element/return/assignment position, argument count, undeclared / out-of-scope names, missing / duplicate / unknown fields, non-exhaustive or unreachable arms, unary minus on unsigned, arithmetic / ordering on non-numbers, ? / accept / reject / return where forbidden, assignment to non-locals, redeclaration, recursive types and constants) = 565 k mutants quick, 3.4 M thorough: each must be rejected with a type error report (a compile is class `accepted`, a compiler crash class `crash-instead-of-type-error`).",
+         "The edit list, not the implementation, defines ill-typedness (each operator cites its rule); doubtful cases (let-shadowing) are executed but not judged."),
  "C08": ("4/C08",
          "bounded-exhaustive program enumeration with an effect marker at every sub-expression position, executed on the real pipeline and compared with the reference interpreter's host-call log",
          "All effect-marker expressions over every multi-operand construct (operators, calls with 1-4 arguments, method calls with effectful receiver and arguments, record literals in non-declared order, list literals, enum constructors, f-strings, blocks, if/else, match) to depth 2 (thorough 3), and all statement bodies (compound assignment reading its target first, return, for, if, while, guarded match with interleaved `_` arms, `?`, early return) to size 2 (thorough 3); each program runs on all 16 vectors of its four bool inputs; the log (function, arguments, order, multiplicity) and the value must equal the model's.",
